@@ -15,6 +15,8 @@ import Mamba.Lemmas.DistanceCCModel2
 import Mamba.Lemmas.DistanceIPaths4
 import Mamba.Lemmas.DistanceICycles5
 import Mamba.Lemmas.DistanceBiconTotal
+import Mamba.Lemmas.DistancePatonTotal
+import Mamba.Lemmas.DistanceBiconCover
 /-!
 # C10 — property theorems
 
@@ -272,6 +274,19 @@ theorem biconnectedComponents_model_total_partial (g : G) (hsym : ∀ u v, g.adj
       ∀ b ∈ bs, b.Pairwise (fun a b => decide (a ≤ b) = true) :=
   biconnectedComponents_total g hsym
 
+/-- `BiconnectedComponents` model: every vertex of the graph lies in at least one reported block (isolated
+vertices as singleton blocks). Proved through a DFS invariant on the faithful model: a vertex that has left the
+stack has all its neighbours visited and lies in a partial block or in an emitted block; the merge loop and the
+emission only move vertices between partial blocks and the output; at the end the visited set contains the root and
+is closed under adjacency, hence is the whole (connected) component.
+Still missing for `biconnectedComponents_model_correct`: every edge lies in exactly one reported block, every
+reported block is connected without articulation vertex and maximal (= `blocks g`), and the reported articulation
+vertices are exactly `articulation g` (lowpoint correctness). -/
+theorem bicon_blocks_cover_vertices_partial (g : G) (hsym : ∀ u v, g.adj u v = g.adj v u)
+    (bs : List (List Nat)) (arts : List Nat) (hres : Model.biconnectedComponents g = .ok (bs, arts)) :
+    ∀ x, x < g.n → ∃ b ∈ bs, x ∈ b :=
+  bicon_cover_vertices g hsym bs arts hres
+
 /-! ## Girth and cycle / path counts -/
 
 /-- `Girth`: the reference value is the least number of vertices of a cycle (`IsCycleSeq`: at least three distinct
@@ -395,6 +410,26 @@ theorem induced_cycles_orbits (g : G) (hsym : ∀ u v, g.adj u v = g.adj v u) (c
     (allIndCycleSeqs g c).length = 2 * c * numInducedCycles g c :=
   ⟨nodup_allIndCycleSeqs c, fun _ => mem_allIndCycleSeqs hsym hc,
    indCycleSeq_count hsym c (nodup_allIndCycleSeqs c) (fun _ => mem_allIndCycleSeqs hsym hc)⟩
+
+/-- `NumberOfCycles` model, totality of its two algorithmic phases on every block `a = g.induced bicom`
+(symmetric adjacency): Paton's spanning-tree phase returns a value — `length := depth[v] - depth[T[u]] + 2` is never
+below 2 (the parents of the vertices waiting on the stack `X` are never deeper than the vertex being examined:
+Paton's remark that a back edge leads to a vertex at distance one from the tree path to `v`), following `T` from a
+tree vertex never meets `-1`, all indices are in range, and the `for len(X) > 0` loop terminates within `n + 1`
+iterations — and Gibbs' steps 2–4 return a value on the fundamental cycles it produced.
+NOT proved: (a) totality of the last step `numberFound[len(V)]++`, which needs `len(V) ≤ n` for every set `V` kept
+by Gibbs' algorithm, i.e. that every such set is a single cycle; (b) correctness: Paton's cycles form a fundamental
+basis of the cycle space of the block and Gibbs' steps keep exactly the elements of the cycle space that are single
+cycles, so that the counts by length are `numCycles g l` (`numCycles_spec`). Both are validated per input (`F=ok`,
+for `m - n ≤ 12`; Go vs reference for `m - n ≤ 14`). -/
+theorem numberOfCycles_phases_total_partial (g : G) (hsym : ∀ u v, g.adj u v = g.adj v u) (bicom : List Nat)
+    (hne : 0 < (g.induced bicom).n) :
+    ∃ st, Model.patonLoop (g.induced bicom) ((g.induced bicom).n + 1) (patonInit (g.induced bicom).n) = .ok st ∧
+      ∀ f0 fs, st.fund = f0 :: fs → ∃ gs, Model.gibbsLoop fs { S := [f0], Q := [f0] } = .ok gs := by
+  obtain ⟨st, hst⟩ := paton_total (g.induced bicom) (induced_symm hsym bicom) hne
+  exact ⟨st, hst, fun f0 fs _ => gibbsLoop_total fs _⟩
+
+example : 0 < ((ofEdges 3 [(0, 1), (1, 2), (0, 2)]).induced [0, 1, 2]).n := by decide  -- non-vacuity
 
 /-! ## Invariance under relabelling
 
